@@ -27,6 +27,7 @@ var alternates = map[string][]string{
 	"w3":   {"中", "€", "ह"},
 	"w4":   {"😀", "𝒳", "𐍈"},
 	"cm":   {"́", "̈"},
+	"wsl":  {"Ġ", "Ċ", "č", "ĉ", "†", "上", "😊"}, // U+0120 U+010A U+010D U+0109 U+2020 U+4E0A U+1F60A
 }
 
 func setAlphabet(seed int64) {
